@@ -41,8 +41,8 @@ def jwsCritRules (ms : List Jws.Member) (h : Jws.Hdr) (c : Content) : Option Str
   if !h.crit.contains Jws.kScheme then some "scheme_not_critical"
   else if c.scheme == schemeAuthority && !h.crit.contains Jws.kAuthSigningTime then some "authentic_signing_time_not_critical"
   else if !isZeroT c.expiry && !h.crit.contains Jws.kExpiry then some "expiry_not_critical"
-  else if !(h.crit.all fun l => [Jws.kScheme, Jws.kExpiry, Jws.kAuthSigningTime].contains l || ((Jws.extMembers ms).map (·.key)).contains l)
-    then some "critical_label_not_present"
+  else if !(h.crit.all fun l => (ms.map (·.key)).contains l)
+    then some "critical_label_not_present"            -- present = the protected header has a member of that name
   else none
 
 /-- expected extended attributes: one per non-specification name (last member), with the exact
